@@ -74,7 +74,30 @@ func v2Funcs(p *core.Prog) []*ssa.Function {
 	return out
 }
 
-func isThresholdLoad(v ssa.Value) bool { return core.LoadOfField(v, "/v2.Classifier", "threshold") }
+func isThresholdLoad(v ssa.Value) bool {
+	r := curRoles()
+	return r != nil && core.LoadOfField(v, "/v2.Classifier", r.threshold)
+}
+
+// curRoles: the roles of the v2 module loaded by the running check.
+func curRoles() *v2Roles {
+	progMu.Lock()
+	var pr *core.Prog
+	for _, p := range progOf {
+		if p.Pkg(v2pkg) != nil && p.Dir != "" && p.Named(v2pkg, "Classifier") != nil {
+			pr = p
+		}
+	}
+	progMu.Unlock()
+	if pr == nil {
+		return nil
+	}
+	r := rolesOf(pr)
+	if !r.ok {
+		return nil
+	}
+	return r
+}
 
 func runC03(c *Ctx) {
 	p := c.Prog("v2")
@@ -101,9 +124,18 @@ func runC03(c *Ctx) {
 	checkKeyFormat(c, p, "R03.6")
 
 	// R03.8: constant-position accesses in match and the decoders
+	decoderFns := map[*ssa.Function]bool{}
+	for _, lit := range lits {
+		for _, f := range []string{"MatchType", "Name", "Variant"} {
+			if call, ok := lit.fields[f].(*ssa.Call); ok && call.Call.StaticCallee() != nil {
+				decoderFns[call.Call.StaticCallee()] = true
+			}
+			decoderFns[lit.fn] = true // an inlined decoder indexes the split key next to the literal
+		}
+	}
 	var sub []*ssa.Function
 	for _, f := range fns {
-		if p.IsFn(f, v2pkg, "(*Classifier).match") || p.IsFn(f, v2pkg, "LicenseName") || p.IsFn(f, v2pkg, "variantName") || p.IsFn(f, v2pkg, "detectionType") {
+		if p.IsFn(f, v2pkg, "(*Classifier).match") || decoderFns[f] {
 			sub = append(sub, f)
 		}
 	}
@@ -221,17 +253,12 @@ func lineOfToken(lineV, idxV ssa.Value) (bool, string) {
 		return false, "Line is not taken from an indexed token"
 	}
 	toks, ok := ia.X.(*ssa.UnOp)
-	if !ok || !core.LoadOfField(toks, "/v2.indexedDocument", "Tokens") {
+	if !ok || !isDocField(toks, func(r *v2Roles) string { return r.tokens }) {
 		return false, "the indexed slice is not indexedDocument.Tokens"
 	}
-	base := toks.X.(*ssa.FieldAddr).X
-	ex, ok := base.(*ssa.Extract)
-	if !ok {
-		return false, "the document is not the one tokenised by this call"
-	}
-	call, ok := ex.Tuple.(*ssa.Call)
-	if !ok || !strings.HasSuffix(core.StaticCalleeName(&call.Call), "/v2.tokenizeStream") {
-		return false, "the document is not the result of tokenizeStream in this call"
+	base := core.Unspill(toks.X.(*ssa.FieldAddr).X)
+	if !isTokenizedHere(base, 0) {
+		return false, "the document is not the one tokenised by this Match call"
 	}
 	if !core.LinOf(ia.Index, nil).Equal(core.LinOf(idxV, nil)) {
 		return false, fmt.Sprintf("the token index used for the line (%s) differs from the stored token index (%s)", core.LinOf(ia.Index, nil), core.LinOf(idxV, nil))
@@ -239,47 +266,153 @@ func lineOfToken(lineV, idxV ssa.Value) (bool, string) {
 	return true, "Line of target token [" + core.LinOf(ia.Index, nil).String() + "]"
 }
 
+// keyComponent: v is component k of a docs key: decoder(key) with a decoder returning component k, or
+// strings.Split(key, pathsep)[k] directly.
+func keyComponent(v ssa.Value) (key ssa.Value, idx int64, ok bool) {
+	switch x := v.(type) {
+	case *ssa.Call:
+		dec := x.Call.StaticCallee()
+		if dec == nil || len(x.Call.Args) != 1 {
+			return nil, 0, false
+		}
+		k, okD := decoderIndex(dec)
+		if !okD {
+			return nil, 0, false
+		}
+		return core.Unspill(x.Call.Args[0]), k, true
+	case *ssa.UnOp:
+		ia, isIA := x.X.(*ssa.IndexAddr)
+		if !isIA {
+			return nil, 0, false
+		}
+		k, isK := core.ConstInt(ia.Index)
+		call, isCall := ia.X.(*ssa.Call)
+		if !isK || !isCall || core.StaticCalleeName(&call.Call) != "strings.Split" || !isPathSepString(call.Call.Args[1]) {
+			return nil, 0, false
+		}
+		return core.Unspill(call.Call.Args[0]), k, true
+	}
+	return nil, 0, false
+}
+
+// callSiteTuples substitutes parameters of one function by the arguments of each of its call sites
+// (one level); values that are not parameters are kept. Returns one tuple per call site.
+func callSiteTuples(p *core.Prog, vals []ssa.Value) [][]ssa.Value {
+	var fn *ssa.Function
+	for _, v := range vals {
+		if prm, ok := v.(*ssa.Parameter); ok {
+			if fn != nil && prm.Parent() != fn {
+				return [][]ssa.Value{vals}
+			}
+			fn = prm.Parent()
+		}
+	}
+	if fn == nil {
+		return [][]ssa.Value{vals}
+	}
+	var out [][]ssa.Value
+	for _, g := range p.SrcFuncs(core.FuncPkgPath(fn)) {
+		for _, call := range core.CallsIn(g) {
+			if eng.ResolveCallee(call.Common().Value) != fn {
+				continue
+			}
+			t := make([]ssa.Value, len(vals))
+			for i, v := range vals {
+				t[i] = v
+				if prm, ok := v.(*ssa.Parameter); ok {
+					for k, q := range fn.Params {
+						if q == prm && k < len(call.Common().Args) {
+							t[i] = core.Unspill(call.Common().Args[k])
+						}
+					}
+				}
+			}
+			out = append(out, t)
+		}
+	}
+	if len(out) == 0 {
+		return [][]ssa.Value{vals}
+	}
+	return out
+}
+
+// isTokenizedHere: v is the document returned by tokenizeStream in the Match call tree: the result
+// itself, or a parameter that receives it at every call site.
+func isTokenizedHere(v ssa.Value, depth int) bool {
+	v = core.Unspill(v)
+	if ex, ok := v.(*ssa.Extract); ok {
+		if call, ok := ex.Tuple.(*ssa.Call); ok && isTokenizeStream(call.Call.StaticCallee()) {
+			return true
+		}
+	}
+	prm, ok := v.(*ssa.Parameter)
+	if !ok || depth > 3 {
+		return false
+	}
+	fn := prm.Parent()
+	pr := progOf[fn.Prog]
+	if pr == nil {
+		return false
+	}
+	n := 0
+	for _, t := range callSiteTuples(pr, []ssa.Value{prm}) {
+		if t[0] == ssa.Value(prm) {
+			return false // no call sites
+		}
+		n++
+		if !isTokenizedHere(t[0], depth+1) {
+			return false
+		}
+	}
+	return n > 0
+}
+
 func checkTriple(c *Ctx, p *core.Prog, lit structLit, key, pos string) {
-	want := map[string]string{"Name": "LicenseName", "Variant": "variantName", "MatchType": "detectionType"}
+	want := map[string]int64{"MatchType": 0, "Name": 1, "Variant": 2}
 	var keyVal ssa.Value
 	ok := true
 	why := ""
-	for f, dec := range want {
-		call, isCall := lit.fields[f].(*ssa.Call)
-		if !isCall || !p.IsFn(call.Call.StaticCallee(), v2pkg, dec) || len(call.Call.Args) != 1 {
-			ok = false
-			why = f + " is not " + dec + "(key)"
+	for _, f := range []string{"MatchType", "Name", "Variant"} {
+		k, idx, okK := keyComponent(lit.fields[f])
+		if !okK {
+			ok, why = false, f+" is not a component of the corpus key (decoder(key) or strings.Split(key, pathsep)[k])"
 			break
 		}
-		a := core.Unspill(call.Call.Args[0])
+		if idx != want[f] {
+			ok, why = false, fmt.Sprintf("%s is component %d of the key, expected component %d", f, idx, want[f])
+			break
+		}
 		if keyVal == nil {
-			keyVal = a
-		} else if keyVal != a {
-			ok = false
-			why = "the three fields are decoded from different keys"
+			keyVal = k
+		} else if keyVal != k {
+			ok, why = false, "the three fields are decoded from different keys"
 		}
 	}
 	if ok {
-		// the key must be the map key paired with the document that was scored
-		ex, isEx := keyVal.(*ssa.Extract)
-		if !isEx || ex.Index != 1 {
-			ok, why = false, "the decoded key is not the key of the corpus iteration"
-		} else if conf, isExC := lit.fields["Confidence"].(*ssa.Extract); !isExC {
+		conf, isExC := lit.fields["Confidence"].(*ssa.Extract)
+		var sc *ssa.Call
+		if isExC {
+			sc, _ = conf.Tuple.(*ssa.Call)
+		}
+		if sc == nil || !p.IsFn(sc.Call.StaticCallee(), v2pkg, "(*Classifier).score") || len(sc.Call.Args) < 4 {
 			ok, why = false, "Confidence is not a result of score"
-		} else if sc, isCall := conf.Tuple.(*ssa.Call); !isCall || !p.IsFn(sc.Call.StaticCallee(), v2pkg, "(*Classifier).score") {
-			ok, why = false, "Confidence is not a result of score"
+		} else if core.Unspill(sc.Call.Args[1]) != keyVal {
+			ok, why = false, "score was called with a different key than the one decoded into Name/Variant/MatchType"
 		} else {
-			// score(c, l, id, d, ...) : l must be keyVal, d must be Extract #2 of the same Next
-			args := sc.Call.Args
-			if len(args) < 4 || core.Unspill(args[1]) != keyVal {
-				ok, why = false, "score was called with a different key than the one decoded into Name/Variant/MatchType"
-			} else if d, isD := core.Unspill(args[3]).(*ssa.Extract); !isD || d.Tuple != ex.Tuple || d.Index != 2 {
-				ok, why = false, "the document scored is not the one stored under the decoded key"
+			// the key must be the map key paired (same iteration) with the document that was scored
+			for _, t := range callSiteTuples(p, []ssa.Value{keyVal, core.Unspill(sc.Call.Args[3])}) {
+				kx, isK := t[0].(*ssa.Extract)
+				dx, isD := t[1].(*ssa.Extract)
+				if !isK || !isD || kx.Index != 1 || dx.Index != 2 || kx.Tuple != dx.Tuple {
+					ok, why = false, "the document scored is not the one stored under the decoded key (key and document are not the pair of one corpus iteration)"
+				} else if _, isNext := kx.Tuple.(*ssa.Next); !isNext {
+					ok, why = false, "the decoded key is not the key of the corpus iteration"
+				}
 			}
 		}
 	}
 	c.R.Check(ok, "R03.5", key+": Name/Variant/MatchType are decoded from the key of the document that was scored", pos,
-		"LicenseName/variantName/detectionType(l) with l the map key paired with the scored document", why)
+		"components 1, 2, 0 of l, with (l, d) the pair of one corpus iteration and d the document scored", why)
 }
 
 // checkOrdering: R03.4.
@@ -532,16 +665,6 @@ func checkKeyFormat(c *Ctx, p *core.Prog, rule string) {
 	}
 	c.R.Check(ok, rule, "generateDocName formats category, name, variant in that order with the path separator", p.Pos(gen.Pos()), why, why)
 
-	// decoders
-	for name, idx := range map[string]int64{"detectionType": 0, "LicenseName": 1, "variantName": 2} {
-		fn := p.Func(v2pkg, name)
-		if !c.R.Anchor(fn != nil, "v2."+name) {
-			continue
-		}
-		ok, why := decoderShape(fn, idx)
-		c.R.Check(ok, rule, name+" returns component "+fmt.Sprint(idx)+" of the key split on the path separator", p.Pos(fn.Pos()), why, why)
-	}
-
 	// AddContent -> addDocument -> generateDocName forward (category, name, variant) in order
 	for _, hop := range [][2]string{{"(*Classifier).AddContent", "addDocument"}, {"(*Classifier).addDocument", "generateDocName"}} {
 		fn := p.Func(v2pkg, hop[0])
@@ -570,7 +693,7 @@ func checkKeyFormat(c *Ctx, p *core.Prog, rule string) {
 		for _, b := range fn.Blocks {
 			for _, in := range b.Instrs {
 				mu, ok := in.(*ssa.MapUpdate)
-				if !ok || !core.LoadOfField(mu.Map, "/v2.Classifier", "docs") {
+				if !ok || !isClsField(mu.Map, func(r *v2Roles) string { return r.docs }) {
 					continue
 				}
 				n++
@@ -622,6 +745,19 @@ func unwrapIface(v ssa.Value) ssa.Value {
 func isPathSepConst(v ssa.Value) bool {
 	k, ok := core.ConstInt(v)
 	return ok && (k == '/' || k == '\\')
+}
+
+// decoderIndex: fn returns strings.Split(param, pathsep)[k] for a constant k.
+func decoderIndex(fn *ssa.Function) (int64, bool) {
+	if fn == nil || len(fn.Params) != 1 || len(fn.Blocks) == 0 {
+		return 0, false
+	}
+	for k := int64(0); k < 6; k++ {
+		if ok, _ := decoderShape(fn, k); ok {
+			return k, true
+		}
+	}
+	return 0, false
 }
 
 // decoderShape: return strings.Split(in, sep)[idx] with sep the path separator.
@@ -703,6 +839,25 @@ func keyPieces(fn *ssa.Function, v ssa.Value) ([]string, bool) {
 		}
 		return append(l, r...), true
 	case *ssa.Call:
+		if core.StaticCalleeName(&x.Call) == "strings.Join" {
+			els := varargElems(x.Call.Args[0])
+			sep, okS := classify(x.Call.Args[1])
+			if len(els) == 0 || !okS {
+				return nil, false
+			}
+			var out []string
+			for i, e := range els {
+				pc, ok := classify(e)
+				if !ok {
+					return nil, false
+				}
+				if i > 0 {
+					out = append(out, sep)
+				}
+				out = append(out, pc)
+			}
+			return out, true
+		}
 		if core.StaticCalleeName(&x.Call) != "fmt.Sprintf" {
 			return nil, false
 		}
@@ -744,4 +899,37 @@ func keyPieces(fn *ssa.Function, v ssa.Value) ([]string, bool) {
 		return []string{pc}, true
 	}
 	return nil, false
+}
+
+// isTokenizeStream: fn is the streaming tokenizer (resolved through the anchor table, so a rename does not matter).
+func isTokenizeStream(fn *ssa.Function) bool {
+	if fn == nil || fn.Prog == nil {
+		return false
+	}
+	pr := progOf[fn.Prog]
+	return pr != nil && pr.IsFn(fn, v2pkg, "tokenizeStream")
+}
+
+// progOf maps an SSA program back to its loaded module (filled by Ctx.Prog / Preload).
+var progOf = map[*ssa.Program]*core.Prog{}
+
+func isClsField(v ssa.Value, pick func(*v2Roles) string) bool {
+	r := curRoles()
+	return r != nil && core.LoadOfField(v, "/v2.Classifier", pick(r))
+}
+
+func isDocField(v ssa.Value, pick func(*v2Roles) string) bool {
+	r := curRoles()
+	if r == nil {
+		return false
+	}
+	switch x := v.(type) {
+	case *ssa.UnOp:
+		if fa, ok := x.X.(*ssa.FieldAddr); ok && x.Op == token.MUL {
+			return core.FieldName(fa) == pick(r) && core.TypeName(fa.X.Type()) == r.docTypeName
+		}
+	case *ssa.Field:
+		return core.FieldName(x) == pick(r) && core.TypeName(x.X.Type()) == r.docTypeName
+	}
+	return false
 }
